@@ -136,29 +136,49 @@ def run_case(ctx, res, p):
     if dv > tight:
         res.oracle_fail("length scale does not scale with the data / stay invariant", p, detail={"rel": float(dv)},
                         signature="C08:ls")
-    # loss at common latent vectors: same Gram matrices => same L for isometry/scale/time (not for permutations)
+    # loss at corresponding latent vectors: same Gram matrices => same L L^T for isometry/scale/time (not for
+    # permutations).  L itself is only determined up to an orthogonal map R of the latent coordinates for the Nystroem
+    # types (signs / rotations of eigenvectors: L2 = L1 R), under which the inference problem is the same problem
+    # (Lean: loss_orthogonal_reparam): compare loss2(R^T z) with loss1(z) and z0' with R^T z0.
     if kind != "perm" and p["config"] != "sparse_kmeans":
         z0 = np.asarray(e1.initial_value, float)
         z0b = np.asarray(e2.initial_value, float)
-        zs = [z0, z0 + 0.1 * np.random.default_rng(p["zseed"]).normal(size=z0.shape)]
-        const = 0.0
-        if kind == "scale" and p["estimator"] != "dim":
-            const = n * np.log(a)
-        for z in zs:
-            l1, l2 = float(e1.loss_func(z)), float(e2.loss_func(z))
-            if p["estimator"] == "dim" and kind == "scale":
-                continue
-            dv = abs(l2 - (l1 + const)) / max(abs(l1), 1.0)
-            res.dev("loss_rel", dv)
-            if dv > 1e-6 + 2e3 * rho:
-                res.oracle_fail("loss at a common latent vector does not transform (invariant / + n log a)", p,
-                                detail={"rel": float(dv), "l1": l1, "l2": l2}, signature="C08:loss")
-        if p["estimator"] != "dim":
-            dv = np.max(np.abs(z0b - z0)) / max(np.max(np.abs(z0)), 1e-300)
-            res.dev("initial_value_rel", dv)
-            if dv > 1e-5 + 2e4 * rho:
-                res.oracle_fail("starting point changes under the transformation", p, detail={"rel": float(dv)},
-                                signature="C08:initial-value")
+        L1, L2 = np.asarray(e1.L, float), np.asarray(e2.L, float)
+        R = None
+        if L1.shape == L2.shape:
+            R = np.linalg.lstsq(L1, L2, rcond=None)[0]
+            r_orth = float(np.max(np.abs(R.T @ R - np.eye(R.shape[0]))))
+            r_fit = float(np.max(np.abs(L1 @ R - L2)) / max(np.max(np.abs(L2)), 1e-300))
+            res.dev("factor_orthogonal_map_dev", max(r_orth, r_fit))
+            if max(r_orth, r_fit) > 1e-5 + 2e4 * rho:
+                R = None
+        if R is None:
+            res.oracle_fail("the covariance factors of the two problems are not related by an orthogonal map of the latent "
+                            "coordinates (L L^T changes under the transformation)", p,
+                            detail={"shapes": [list(L1.shape), list(L2.shape)]}, signature="C08:factor")
+        else:
+            res.count("latent_map=" + ("identity" if np.max(np.abs(R - np.eye(R.shape[0]))) < 1e-6 else "orthogonal"))
+            rr = R.shape[0]
+            back = lambda z: (np.asarray(z, float).reshape(-1, rr) @ R).reshape(np.shape(z))     # R^T z, block-wise
+            zs = [z0, z0 + 0.1 * np.random.default_rng(p["zseed"]).normal(size=z0.shape)]
+            const = 0.0
+            if kind == "scale" and p["estimator"] != "dim":
+                const = n * np.log(a)
+            for z in zs:
+                l1, l2 = float(e1.loss_func(z)), float(e2.loss_func(back(z)))
+                if p["estimator"] == "dim" and kind == "scale":
+                    continue
+                dv = abs(l2 - (l1 + const)) / max(abs(l1), 1.0)
+                res.dev("loss_rel", dv)
+                if dv > 1e-6 + 2e3 * rho:
+                    res.oracle_fail("loss at corresponding latent vectors does not transform (invariant / + n log a)", p,
+                                    detail={"rel": float(dv), "l1": l1, "l2": l2}, signature="C08:loss")
+            if p["estimator"] != "dim":
+                dv = np.max(np.abs(z0b - back(z0))) / max(np.max(np.abs(z0)), 1e-300)
+                res.dev("initial_value_rel", dv)
+                if dv > 1e-5 + 2e4 * rho:
+                    res.oracle_fail("starting point changes under the transformation", p, detail={"rel": float(dv)},
+                                    signature="C08:initial-value")
     # ---- loose: fitted values and predictions (optimiser tolerance)
     rng_ = max(np.ptp(dens1), 1e-9)
     loose = 5e-3
@@ -194,8 +214,8 @@ def run_case(ctx, res, p):
 CONFIGS = ["full", "full_nystroem", "sparse_cholesky", "fixed"]
 
 
-def gen_case(rng):
-    est = ["density", "density", "time", "dim"][rng.integers(4)]
+def gen_case(rng, est=None, kind=None, normalize=None):
+    est = est or ["density", "density", "time", "dim"][rng.integers(4)]
     n, d = 20, 2
     X, _ = gen_points(rng, n, d, kind=["plain", "clustered"][rng.integers(2)], scale=1.0)
     if rng.random() < 0.4:
@@ -220,8 +240,11 @@ def gen_case(rng):
         Xu = lm(6)
     else:
         Xu = lm(6); gp = dict(gp_type="fixed")
+    if est == "time" and (normalize if normalize is not None else rng.random() < 0.4):
+        # per-time-point normalisation: the ls heuristic must keep using within-time-point distances
+        gp = dict(gp, normalize_per_time_point=True)
     kinds = ["isometry", "scale", "perm"] + (["time"] if est == "time" else [])
-    kind = kinds[rng.integers(len(kinds))]
+    kind = kind or kinds[rng.integers(len(kinds))]
     p = {"op": "sym", "estimator": est, "config": cfg, "gp_kwargs": gp, "X": X, "Xu": Xu, "Xq": Xq, "kind": kind,
          "zseed": int(rng.integers(1 << 30)), "ls_time": loguniform(rng, 0.5, 2.0)}
     if kind == "isometry":
@@ -233,7 +256,7 @@ def gen_case(rng):
     elif kind == "perm":
         p["perm"] = rng.permutation(n)
     else:
-        p["a"] = loguniform(rng, 0.1, 10.0)
+        p["a"] = [1e-3, 1e3, loguniform(rng, 1e-3, 1e3), loguniform(rng, 0.1, 10.0)][rng.integers(4)]
         p["b"] = float(rng.normal() * 3)
     return p
 
@@ -244,5 +267,13 @@ def run(ctx, res):
     budget = ctx["budget"] or (100 if quick else 780)
     t_end = time.time() + budget
     mellon()
+    # every (estimator, transformation) pair once, then sampled
+    plan = [("time", "time", True), ("time", "time", False), ("density", "scale", None), ("time", "scale", True),
+            ("dim", "scale", None), ("density", "isometry", None), ("time", "isometry", None), ("dim", "isometry", None),
+            ("density", "perm", None), ("time", "perm", True), ("dim", "perm", None)]
+    for est, kind, nz in plan:
+        if time.time() > t_end + budget:       # at most twice the budget for the fixed plan
+            break
+        run_case(ctx, res, gen_case(rng, est, kind, nz))
     while time.time() < t_end:
         run_case(ctx, res, gen_case(rng))
